@@ -89,7 +89,13 @@ fn main() {
         let case = v.get("case").cloned().unwrap_or(v);
         let started = std::time::Instant::now();
         let Some((_, replay_fn)) = props::dispatch(&prop) else { usage() };
-        let local = replay_fn(&cfg, &case);
+        // replay under the same hang watchdog as exploration
+        let case_for_dog = case.clone();
+        monitor::set_hang_describer(Box::new(move |_| case_for_dog.clone()));
+        let local = monitor::par_for(&cfg, 1, |_, l| {
+            let x = replay_fn(&cfg, &case);
+            l.merge(x);
+        });
         let mut cfg2 = cfg.clone();
         cfg2.prop = format!("{prop}");
         monitor::finish_replay(&cfg2, started, local)
